@@ -166,6 +166,12 @@ def run_case(driver, script, rng, use_z3=True, what=("df", "excel", "gantt", "js
                 stats["out_skipped_dates_out_of_range"] = stats.get("out_skipped_dates_out_of_range", 0) + 1
             return [], 0
         except Exception as e:  # noqa: BLE001
+            if "quantified constraints is not supported" in str(e):
+                # z3.Optimize refuses unbounded objectives over the quantified rules of a concurrent buffer (the F42
+                # family: the built-in optimiser on problems with buffers): nothing is exported, nothing to compare
+                if stats is not None:
+                    stats["out_skipped_optimize_quantified_F42_region"] = stats.get("out_skipped_optimize_quantified_F42_region", 0) + 1
+                return [], 0
             return [f"solve raised {type(e).__name__}: {e}"], 0
     diffs = []
     n = 0
